@@ -70,8 +70,7 @@ Definition clear_gt_after_blacklist_v1 (w : world) (l : list N) : res world :=
   let s2 := if 0 <? removed then s1 <| nr_winning := nr_winning s1 + removed |> else s1 in
   Ok (set_st w (s2 <| total_guaranteed := tg |>)).
 
-(** [remove_guaranteed_tickets_from_blacklist] (v1): the subtraction is unchecked in the source;
-    in the dev profile an underflow panics. *)
+(** [remove_guaranteed_tickets_from_blacklist] (v1), with the bound check added by the repair of F3 *)
 Fixpoint unbl_gt_loop_v1 (acc : state * N * N) (l : list N) : res (state * N * N) :=
   match l with
   | [] => Ok acc
@@ -83,6 +82,7 @@ Fixpoint unbl_gt_loop_v1 (acc : state * N * N) (l : list N) : res (state * N * N
       else if mem u (gt_users s) then unbl_gt_loop_v1 acc r
       else
         let us := us_get (bl_uts s u) in
+        do_ require (us_sg us + us_mg us <=? nw);
         do nw1 <- usub nw (us_sg us);
         do nw2 <- usub nw1 (us_mg us);
         let s1 := s <| gt_users := gt_users s ++ [u] |>
@@ -203,9 +203,9 @@ Fixpoint topup_v2 (ids : list N) (s : state) (remaining added : N) : state * N *
       else topup_v2 r (s <| status := upd (status s) t true |>) (remaining - 1) (added + 1)
   end.
 
-(** v1 top-up: [while remaining > 0] with no bound on the ticket id (fuel = remaining + number of
-    winning tickets that can be skipped, supplied by the caller as a list of candidate ids that is
-    long enough: the loop never runs out because every id beyond [last_ticket_id] is non-winning). *)
+(** v1 top-up as it was before the repair of finding F1: [while remaining > 0] with no bound on the
+    ticket id.  Kept only for the refutation lemma of the unrepaired behaviour; the repaired v1 code
+    uses the bounded loop ([topup_v2]) like v2. *)
 Fixpoint topup_v1 (fuel : nat) (t : N) (s : state) (remaining added : N) : state * N * N :=
   match fuel with
   | O => (s, remaining, added)
@@ -261,9 +261,9 @@ Definition gt_user_step_v1 (s : state) (o : gtop) (u : N) : state * gtop :=
             else
               let rem := n2 - wn in
               let o3 := o2 <| g_leftover := g_leftover o2 + (n2 - rem) |> in
-              (* fuel: at most [rem] non-winning ids are needed; winning ids number at most [last_ticket_id] *)
-              let '(s', _, added) := topup_v1 (N.to_nat (rem + last_ticket_id s + 1)) f s rem 0 in
-              (s', o3 <| g_additional := g_additional o3 + added |>)
+              let '(s', rem', added) := topup_v2 (range_ids f la) s rem 0 in
+              (s', o3 <| g_additional := g_additional o3 + added |>
+                      <| g_leftover := g_leftover o3 + rem' |>)
         end
       else (s, o2)
   end.
